@@ -39,9 +39,11 @@ fn main() {
         "C12" => c12::run(seed, tier, &mut out),
         "C12W" => c12::run_wide(seed, tier, &mut out),
         "C09" => c09::run(seed, tier, &mut out),
+        "C09K" => c09::run_ticker(seed, tier, &mut out),
         "C18" => c18::run(seed, tier, &mut out),
         "C18F" => c18::run_model(seed, tier, &mut out),
         "C17" => c17::run(seed, tier, &mut out),
+        "C04I" => c17::run_finish_modes(seed, tier, &mut out),
         "C13" => c13::run(seed, tier, &mut out),
         "C13R" => c13::run_resize(seed, tier, &mut out),
         "C11" => c11::run(seed, tier, &mut out),
